@@ -169,7 +169,7 @@ namespace
                     construct(x, (typename L::size_type)a);
                     mod[x] = MVec<T>{};
                     mod[x]->v.assign((size_t)a, T{});
-                    mod[x]->def.assign((size_t)a, 0);
+                    mod[x]->def.assign((size_t)a, K == VEC ? 1 : 0);  // utl::vector value-initialises like std::vector
                     return a == 0 ? "ctor_sized0" : "ctor_sized";
                 }
             case 3: {  // variadic construct with a values
@@ -239,7 +239,7 @@ namespace
                         return "resize_over";
                     }
                     mod[x]->v.resize((size_t)a, T{});
-                    mod[x]->def.resize((size_t)a, 0);
+                    mod[x]->def.resize((size_t)a, K == VEC ? 1 : 0);
                     return (size_t)a < old ? "resize_shrink" : ((size_t)a == old ? "resize_same" : "resize_grow");
                 }
             }
